@@ -26,6 +26,10 @@ FIXED=[
  ("F-C07-overread",["C07","C06"],c("recovery read past the end of a nearly full last block"),"mmap backend: recovery read a header past the end of the last block of a file when less than a header of room was left: panic, instance cannot be reopened","last block of a file filled to within 255 bytes; reopen with the mmap backend"),
  ("F-C10-cursor-dirsync",["C10"],c("the persisted read cursor was renamed"),"the cursor index was renamed into place without a directory sync: an acknowledged StrictlyAtOnce consumption could be undone by a power loss","[SyncEach] append; read_next -> power cut -> entry redelivered"),
  ("F-C18-offset-overflow",["C18"],c("a rollover whose sealed count overflowed"),"RolloverTopic with a count that overflows the cumulative sealed offset wrapped it (panic in debug builds)","CreateTopic a; Rollover(count 1); Rollover(count u64::MAX) -> offset 0"),
+ ("F-C05-stale-snapshot-batch-read",["C05"],c("a batch read racing with a block rotation"),"a batch read racing with a block rotation returned the old tail block's entries twice in one call (writer snapshot taken before the column lock)","threads: batch(a,[half,143]) || batch_read(a,MAX): rotation between the reader's writer snapshot and its column lock"),
+ ("F-C05-concurrent-read-next",["C05"],c("two concurrent read_next calls on the writer's tail"),"two concurrent read_next calls on the writer's tail could both return the same entry","threads: read_next || read_next on a topic with 2 tail entries, second reader runs between the first one's tail snapshot and commit"),
+ ("F-C05-rotation-before-commit",["C05"],c("read_next lost its tail progress"),"read_next lost its tail progress when the writer sealed the block between the read and the commit: the entry was delivered again","threads: append (rotating) || read_next: rotation between the reader's tail read and its commit"),
+ ("F-C05-skipped-sealed-block",["C05"],c("read_next could skip a block"),"read_next skipped a block sealed between its chain check and its writer snapshot and returned the first entry of the new block out of order","threads: append (rotating) || read_next: rotation between the reader's chain check and its writer snapshot"),
 ]
 OPEN=[
  # (id, [properties], title, witness)
